@@ -116,7 +116,7 @@ def payload_fragments(plan):
         if T == "String":
             mk = """  // a fixed set of strings that includes multi-byte UTF-8 (symbolic bytes through from_utf8 do not finish under CBMC)
   let pick: u8 = vk::any(); vk::assume(pick < 5);
-  let x: String = match pick { 0 => String::new(), 1 => String::from("a"), 2 => String::from("\u{e9}"), 3 => String::from("\u{65e5}\u{672c}"), _ => String::from("a\u{e9}b") };"""
+  let x: String = match pick { 0 => String::new(), 1 => String::from("a"), 2 => String::from("\\u{e9}"), 3 => String::from("\\u{65e5}\\u{672c}"), _ => String::from("a\\u{e9}b") };"""
             same = "y == x"
         else:
             mk = "  let x: %s = vk::any();" % T
